@@ -661,7 +661,7 @@ func (r *rig) fileChange(alt string) {
 	p := filepath.Join(r.outDir, name)
 	now := time.Now()
 	old, rerr := os.ReadFile(p)
-	if rerr != nil && (op == "rewrite" || op == "append" || op == "touch") {
+	if rerr != nil && (op == "rewrite" || op == "append" || op == "touch" || op == "restore") {
 		// the file is gone (delivered and deleted): the name is used again for new content
 		r.recreated++
 		vh.WriteFileAt(p, []byte(fmt.Sprintf("again %d: %s", r.recreated, name)), now)
@@ -676,6 +676,17 @@ func (r *rig) fileChange(alt string) {
 			nb[0] = byte('0' + (r.recreated/26)%10)
 		}
 		vh.WriteFileAt(p, nb, now)
+	case "restore": // same size, new content, modification time OLDER than before (cp -p, rsync -t, a restored backup)
+		r.recreated++
+		nb := bytes.Repeat([]byte{byte('A' + r.recreated%26)}, len(old))
+		if len(nb) > 0 {
+			nb[0] = byte('0' + (r.recreated/26)%10)
+		}
+		when := now.Add(-2 * time.Hour)
+		if st, err := os.Stat(p); err == nil {
+			when = st.ModTime().Add(-2 * time.Hour)
+		}
+		vh.WriteFileAt(p, nb, when)
 	case "append":
 		vh.WriteFileAt(p, append(old, []byte("+more")...), now)
 	case "touch":
